@@ -626,6 +626,7 @@ def c18(tier):
         jobs.append(Job("chain-prng-init-%s" % label, "c18_trng.c", d, CUT2_CBMC, CUT2_NATIVE, backend="sat",
                         unwind=32 * d["KMAX"] + 40, timeout=900, config=cfg, facet="tinyjambu_prng_init over the fault script"))
     meta = {
+        "level": "fault_enumeration",
         "functions": ["tinyjambu_trng_generate", "tinyjambu_dev_random_read (static)", "tinyjambu_dev_random_open (static)",
                       "tinyjambu_prng_init / tinyjambu_prng_system (chain queries)"],
         "units": ["src/random/tinyjambu-trng-dev-random.c (#included after renaming the OS entry points)", "src/tinyjambu-prng.c (chain)"],
@@ -734,6 +735,11 @@ def c05(tier):
         "stubs": [], "assumptions": ["cbmc / z3 / kissat trusted", "ISA semantics and ABI tables in /verif/e2 (see its README) are trusted",
                                      "composition Lemma A o Lemma B is equational (stated, not machine-checked)"],
         "relies_on": [],
+        "coverage_fn": lambda results, violations: {
+            "programs": len(set(re.sub(r"-(r\d+|lemma.*|direct.*)$", "", r["name"]) for r in results
+                                if r["status"] == "PASS" and (r["name"].startswith("asm-1") or r["name"].startswith("asm-2") or r["name"].startswith("c32-1") or r["name"].startswith("c32-2")))),
+            "disagreements_checked": len(violations),
+            "explanation": "programs = distinct backend programs (file x ABI variant) whose obligations were all discharged this run"},
         "rule": "one obligation per (backend program, ABI variant, round count) or lemma; all state and key bits symbolic; distinct = distinct "
                 "(program, variant, rounds) tuples that reached a verdict",
     }
